@@ -12,6 +12,74 @@ FZ = 'src/offset/local/tz_info/timezone.rs'
 SPEC = r'''
 enum Error { OutOfRange(&'static str), TransitionRule(&'static str) }
 spec fn epoch_day(y: int, m: int, d: int) -> int { day_number(y, cum_days(y, m) + d) - UNIX_DAY() }
+// the two closed forms used by days_since_unix_epoch, proved by induction on the year (one year step = year_len)
+proof fn neg_mod_zero(y: int, d: int)
+    requires d > 0
+    ensures ((-y) % d == 0) == (y % d == 0)
+{
+    lemma_fundamental_div_mod(y, d); lemma_fundamental_div_mod(-y, d); lemma_mod_bound(y, d); lemma_mod_bound(-y, d);
+    if y % d == 0 { let q = y / d; assert(-y == d * (-q) + 0) by(nonlinear_arith) requires y == d * q; lemma_fundamental_div_mod_converse(-y, d, -q, 0); }
+    if (-y) % d == 0 { let q = (-y) / d; assert(y == d * (-q) + 0) by(nonlinear_arith) requires -y == d * q; lemma_fundamental_div_mod_converse(y, d, -q, 0); }
+}
+// shifting by a multiple of d does not change divisibility; c - y is divisible iff y is
+proof fn mod_shift(y: int, k: int, d: int)
+    requires d > 0
+    ensures ((y - d * k) % d == 0) == (y % d == 0), ((d * k - y) % d == 0) == (y % d == 0)
+{
+    lemma_mod_multiples_vanish(-k, y, d); assert(d * (-k) + y == y - d * k) by(nonlinear_arith);
+    lemma_mod_multiples_vanish(k, -y, d); assert(d * k + (-y) == d * k - y);
+    neg_mod_zero(y, d);
+}
+proof fn rem_zero_iff(a: int, b: int)
+    requires b > 0
+    ensures (rust_rem(a, b) == 0) == (a % b == 0)
+{ reveal(rust_rem); if a < 0 { neg_mod_zero(a, b); } }
+proof fn div_step(a: int, d: int)
+    requires d > 0
+    ensures (a + 1) / d - a / d == (if (a + 1) % d == 0 { 1int } else { 0 })
+{
+    lemma_fundamental_div_mod(a, d); lemma_fundamental_div_mod(a + 1, d); lemma_mod_bound(a, d); lemma_mod_bound(a + 1, d);
+    let q = a / d; let r = a % d;
+    assert(q * d == d * q) by(nonlinear_arith);
+    if r + 1 < d { lemma_fundamental_div_mod_converse(a + 1, d, q, r + 1); }
+    else { assert((q + 1) * d == d * q + d) by(nonlinear_arith); lemma_fundamental_div_mod_converse(a + 1, d, q + 1, 0); }
+}
+proof fn trunc_div_step(a: int, d: int)
+    requires d > 0
+    ensures trunc_div(a + 1, d) - trunc_div(a, d) == (if a >= 0 { if (a + 1) % d == 0 { 1int } else { 0 } } else { if (-a) % d == 0 { 1int } else { 0 } })
+{
+    if a >= 0 { div_step(a, d); } else { div_step(-a - 1, d); }
+}
+spec fn leaps_since_1970(y: int) -> int { (y - 1968) / 4 - (y - 1900) / 100 + (y - 1600) / 400 }
+proof fn dby_from_1970(y: int)
+    requires y >= 1970
+    ensures days_before_year(y) == 719162 + 365 * (y - 1970) + leaps_since_1970(y) - (if is_leap(y) { 1int } else { 0 })
+    decreases y - 1970
+{
+    if y == 1970 { assert(days_before_year(1970) == 719162) by { reveal(days_before_year); } }
+    else {
+        dby_from_1970(y - 1); dby_step(y - 1);
+        div_step(y - 1 - 1968, 4); div_step(y - 1 - 1900, 100); div_step(y - 1 - 1600, 400);
+        mod_shift(y, 492, 4); mod_shift(y, 19, 100); mod_shift(y, 4, 400);
+    }
+}
+spec fn leaps_before_1970(y: int) -> int { trunc_div(y - 1972, 4) - trunc_div(y - 2000, 100) + trunc_div(y - 2000, 400) }
+proof fn dby_before_1970(y: int)
+    requires y <= 1970
+    ensures days_before_year(y) == 719162 + 365 * (y - 1970) + leaps_before_1970(y)
+    decreases 1970 - y
+{
+    if y == 1970 { assert(days_before_year(1970) == 719162) by { reveal(days_before_year); } }
+    else {
+        dby_before_1970(y + 1); dby_step(y);
+        trunc_div_step(y - 1972, 4); trunc_div_step(y - 2000, 100); trunc_div_step(y - 2000, 400);
+        mod_shift(y, 493, 4); mod_shift(y, 20, 100); mod_shift(y, 5, 400);
+    }
+}
+proof fn trunc_is_rust(a: int, b: int)
+    requires b > 0
+    ensures trunc_div(a, b) == rust_div(a, b)
+{ reveal(rust_div); }
 proof fn cum_days_vals(y: int)
     ensures cum_days(y, 1) == 0, cum_days(y, 2) == 31, cum_days(y, 3) == 59 + (if is_leap(y) { 1int } else { 0 }), cum_days(y, 4) == cum_days(y, 3) + 31,
             cum_days(y, 5) == cum_days(y, 3) + 61, cum_days(y, 6) == cum_days(y, 3) + 92, cum_days(y, 7) == cum_days(y, 3) + 122, cum_days(y, 8) == cum_days(y, 3) + 153,
@@ -109,9 +177,9 @@ impl TimeZone for Utc { type Offset = Utc; }
     u.const(FM, 'CUMUL_DAY_IN_MONTHS_NORMAL_YEAR')
     u.const(FZ, 'SECONDS_PER_WEEK')
     u.const(F, 'DAY_IN_MONTHS_LEAP_YEAR_FROM_MARCH')
-    u.prove(F, 'is_leap_year', cid='is_leap_year')
+    u.prove(F, 'is_leap_year', cid='is_leap_year', hints=[("year % 400 == 0", "    proof { rem_zero_iff(year as int, 400); rem_zero_iff(year as int, 4); rem_zero_iff(year as int, 100); }")])
     u.prove(F, 'days_since_unix_epoch', cid='days_since_unix_epoch',
-            hints=[("let mut result = (year - 1970) * 365;", "    proof { cum_days_vals(year as int); reveal(days_before_year); }")])
+            hints=[("let mut result = (year - 1970) * 365;", "    proof { cum_days_vals(year as int); if year >= 1970 { dby_from_1970(year as int); assert(leaps_since_1970(year as int) == (year as int - 1968) / 4 - (year as int - 1900) / 100 + (year as int - 1600) / 400); } else { dby_before_1970(year as int); rust_divrem(year as int - 1972, 4); rust_divrem(year as int - 2000, 100); rust_divrem(year as int - 2000, 400); trunc_is_rust(year as int - 1972, 4); trunc_is_rust(year as int - 2000, 100); trunc_is_rust(year as int - 2000, 400); } }")])
     u.raw('impl RuleDay {')
     for n in ['julian_1', 'julian_0', 'month_weekday']:
         u.prove(F, n, 'impl RuleDay {', cid='RuleDay::' + n)
